@@ -122,17 +122,22 @@ class MarginLoans(base.LendingStrategy):
             acc_balances.balances, acc_balances.holds, acc_balances.borrowed
         )
 
+    def _calculate_used_margin(self, updated_borrowed: ValueMapDict) -> Decimal:
+        assert self._exchange_ctx, "Not yet connected with the exchange"
+
+        margin_requirements = ValueMap(
+            {symbol: self.get_conditions(symbol).margin_requirement for symbol in updated_borrowed}
+        )
+        used_margin_by_symbol = margin_requirements * updated_borrowed
+        return self._exchange_ctx.prices.convert_value_map(used_margin_by_symbol, self._quote_symbol)
+
     def _calculate_margin_level(
             self, updated_balances: ValueMapDict, updated_holds: ValueMapDict, updated_borrowed: ValueMapDict
     ) -> Decimal:
         assert self._exchange_ctx and self._loan_mgr, "Not yet connected with the exchange"
 
         # Calculate used margin.
-        margin_requirements = ValueMap(
-            {symbol: self.get_conditions(symbol).margin_requirement for symbol in updated_borrowed}
-        )
-        used_margin_by_symbol = margin_requirements * updated_borrowed
-        used_margin = self._exchange_ctx.prices.convert_value_map(used_margin_by_symbol, self._quote_symbol)
+        used_margin = self._calculate_used_margin(updated_borrowed)
         if used_margin == Decimal(0):
             return Decimal(0)
 
@@ -170,6 +175,12 @@ class MarginLoans(base.LendingStrategy):
         margin_level = self._calculate_margin_level(updated_balances, updated_holds, updated_borrowed)
         if margin_level > Decimal(0) and margin_level < Decimal(100):
             raise errors.NotEnoughBalance(f"Margin level too low {margin_level}")
+        # A margin level of 0 means that there is no used margin, or that there is no equity left. Nothing more can be
+        # borrowed in the latter case.
+        if margin_level == Decimal(0) and self._calculate_used_margin(updated_borrowed) > Decimal(0) and any(
+                amount > acc_balances.borrowed.get(symbol, Decimal(0)) for symbol, amount in updated_borrowed.items()
+        ):
+            raise errors.NotEnoughBalance("No equity left to borrow")
 
 
 class CheckMarginLevel(account_balances.UpdateRule):
